@@ -179,7 +179,7 @@ def run(ctx):
                        fn, reps=2, extra=dict(pre=pre))
     ctx.assume('reference = spec/cycle.py (documented semantics); gcc and the host CPU for CompiledSimulation')
     ctx.assume('sanctioned difference: non-zero default_value is not applied to memories by CompiledSimulation (default_value=0 used)')
-    return ctx.finish('other', './check C02', ['z3', 'pyvc', 'spec/cycle.py', 'gcc'],
+    return ctx.finish('translation_validation', './check C02', ['z3', 'pyvc', 'spec/cycle.py', 'gcc'],
                       'P: FastSimulation per-op expression templates + mask elision equal the documented value '
                       'for all widths/values; PB: translation validation of every emitted C op at limb-crossing '
                       'widths; bounded (level B): both code generators are run on the design family with '
